@@ -11,6 +11,7 @@ import itertools
 from ..absval import AbsRaise, ClassVal, Closure, Env, Interp, Native, Obj, Stub
 from ..astq import arg, canon, ext_names, global_names, inside, is_name, loc, names_in, real_body, stmt_of
 from ..model import AnalysisError, Func, head, norm
+from . import roles
 from . import engine as E
 from . import runrules as R
 from .rewriterules import MG, World
@@ -82,7 +83,7 @@ def check(ctx):
     ctx.run(E.rule_one_callback_per_dequeue, "C02.B8", er)
     ctx.run(E.rule_queue_effects, "C02.B8", er)
     ctx.run(E.rule_callbacks_only_via_engine, "C02.B8", er, [rr.runcb, rr.stalecb])
-    pcall = m.method("Plan", "_call", "WRITER")
+    pcall = roles.call_ctor(m)
     reader = m.one_func("get_argument_nodes", "READER")
     # ---------------------------------------------------------------- B1
     n = 0
@@ -128,11 +129,9 @@ def check(ctx):
                "edge key equality/hash omit a field: parallel argument edges collapse in the multigraph")
     # ---------------------------------------------------------------- B2
     planc_ = m.one_class("Plan", "GATHER")
-    gather = planc_.methods.get("_gather")
-    public_gather = gather is None
-    if public_gather:
-        # however the implementation is organised, the public method (with the frame capture stubbed) is the specification
-        gather = m.method("Plan", "gather", "GATHER")
+    # however the implementation is organised, the public method (with the frame capture stubbed) is the specification
+    public_gather = True
+    gather = m.method("Plan", "gather", "GATHER")
     w = make_world(m, rr)
     w.interp.stubs["get_stack_frame"] = Stub("get_stack_frame", lambda *a_: "FRAME")
     a, b = w.call("a"), w.call("b")
@@ -168,55 +167,75 @@ def check(ctx):
                f"a {what} is traversed/rebuilt: only the exact built-in types may be recursed into")
     r = g_(a)
     ctx.ob("C02.B2", f"{gather.short}/node-identity", r is a, loc(gather), "a node is returned unchanged")
+    # shapes: the gathered node is *evaluated back* with tokens for the symbolic nodes (the gather functions are interpreted, whatever
+    # they are called and wherever their dispatch table lives) and must give what direct evaluation of the container gives
+    def rebuild(node):
+        if node is a:
+            return "Va"
+        if node is b:
+            return "Vb"
+        if isinstance(node, Obj) and node.cls is lit_c:
+            return node.attrs.get("value")
+        if isinstance(node, Obj) and node.cls is call_c:
+            try:
+                return w.interp.call(node.attrs.get("fn"), [rebuild(x) for x in args_of(node)], {})
+            except AbsRaise as e:
+                raise AnalysisError(f"C02.B2: evaluating the gathered expression raised {e.value!r}")
+        return node
+
+    def same(x, y):
+        if type(x) is not type(y):
+            return False
+        if isinstance(x, (list, tuple)):
+            return len(x) == len(y) and all(same(p_, q_) for p_, q_ in zip(x, y))
+        if isinstance(x, dict):
+            return list(x.keys()) == list(y.keys()) and all(same(x[k_], y[k_]) for k_ in x)
+        return x == y
     inner = [5, 6]
     r = g_([a, inner, (b, 7)])
-    ch = args_of(r) if isinstance(r, Obj) and r.cls is call_c else []
-    ok = fn_name(r) == "gather_list" and len(ch) == 3 and ch[0] is a and lit_val(ch[1]) is inner and fn_name(ch[2]) == "gather_tuple" \
-        and [x if x is b else lit_val(x) for x in args_of(ch[2])] == [b, 7]
+    got = rebuild(r) if isinstance(r, Obj) and r.cls is call_c else None
+    ok = same(got, ["Va", inner, ("Vb", 7)]) and got[1] is inner
     ctx.ob("C02.B2", f"{gather.short}/list-shape", ok, loc(gather),
-           "list with nodes -> gather_list(children in order); node-free children are the very objects; nested tuple -> gather_tuple" if ok else
-           f"list with nodes is gathered as {fn_name(r)}({[w.role(x) if id(x) in w.names else (fn_name(x) or lit_val(x)) for x in ch]})")
+           "[a, [5, 6], (b, 7)] evaluates back to a list of the values in order; the node-free child is the very object; the nested tuple is a tuple" if ok else
+           f"[a, [5, 6], (b, 7)] is gathered into an expression that evaluates to {got!r}")
     kd = {"p": a, b: 2}
     r = g_(kd)
-    ch = args_of(r) if isinstance(r, Obj) and r.cls is call_c else []
-    ok = fn_name(r) == "gather_dict" and len(ch) == 2 and all(fn_name(x) == "gather_tuple" for x in ch)
-    if ok:
-        i0, i1 = args_of(ch[0]), args_of(ch[1])
-        ok = [lit_val(i0[0]), i0[1]] == ["p", a] and i1[0] is b and lit_val(i1[1]) == 2
+    try:
+        got = rebuild(r) if isinstance(r, Obj) and r.cls is call_c else None
+    except TypeError:
+        got = None
+    ok = same(got, {"p": "Va", "Vb": 2})
+    # symbolic items before plain ones, and a symbolic key that collides with a later plain key (later key wins, first position kept)
+    for kd2, want2 in (({b: 2, "p": a, "q": 5}, {"Vb": 2, "p": "Va", "q": 5}), ({a: 1, "Va": 2, "z": b}, {"Va": 2, "z": "Vb"})):
+        r2_ = g_(kd2)
+        try:
+            got2 = rebuild(r2_) if isinstance(r2_, Obj) and r2_.cls is call_c else None
+        except TypeError:
+            got2 = None
+        if ok and not same(got2, want2):
+            ok, got = False, got2
     ctx.ob("C02.B2", f"{gather.short}/dict-shape", ok, loc(gather),
-           "dict with nodes -> gather_dict(one (key, value) pair per item, in insertion order, nodes allowed as keys)" if ok else
-           "a dict holding nodes is not gathered as gather_dict over its (key, value) items in order: later-key-wins and key "
-           "order of the rebuilt dict differ from direct evaluation")
+           "{'p': a, b: 2} evaluates back to a dict with the same keys in insertion order (nodes allowed as keys)" if ok else
+           f"a dict holding nodes is gathered into an expression that evaluates to {got!r}: keys, key order or later-key-wins differ from direct evaluation")
     # a container is gathered as it is NOW: gathering it again after it was mutated reflects the mutation (no memo by identity)
     grow = [a]
     r1 = g_(grow)
     grow.append(b)
     r2 = g_(grow)
-    ok = fn_name(r2) == "gather_list" and [x for x in args_of(r2)] == [a, b] and len(args_of(r1)) == 1
+    ok = same(rebuild(r2), ["Va", "Vb"]) and same(rebuild(r1), ["Va"])
     ctx.ob("C02.B2", f"{gather.short}/regather-after-mutation", ok, loc(gather),
            "a container gathered, extended and gathered again yields a node for its current contents" if ok else
            "a container that was gathered before is answered from a cache: after it was mutated the plan still evaluates its old contents")
     r = g_({a, 3})
-    ok = fn_name(r) == "gather_set" and len(args_of(r)) == 2
-    ctx.ob("C02.B2", f"{gather.short}/set-shape", ok, loc(gather), "set with a node -> gather_set(children)" if ok else "set with nodes is not gathered by gather_set")
-    # ---------------------------------------------------------------- B3
-    planmod = gather.module
-    tbl = [e for k, e, p_ in planmod.bindings.get("GATHER_LOOKUP", []) if k == "assign"]
-    if len(tbl) != 1 or not isinstance(tbl[0], ast.Dict):
-        raise AnalysisError("GATHER_LOOKUP dispatch table not found")
-    keys = [norm(k) for k in tbl[0].keys]
-    ok = sorted(keys) == ["dict", "list", "set", "tuple"]
-    ctx.ob("C02.B3", "GATHER_LOOKUP/keys", ok, f"{planmod.relpath}:{tbl[0].lineno}", f"keys {sorted(keys)}" if ok else f"dispatch keys are {sorted(keys)}, expected exactly list/tuple/set/dict")
-    for k, v in zip(tbl[0].keys, tbl[0].values):
-        fs = [o[1] for o in m.origins_of(planmod, v) if o[0] == "func"]
-        if len(fs) != 1:
-            raise AnalysisError(f"gather function for {norm(k)} not resolved")
-        f = fs[0]
-        body = [s for s in f.node.body if not (isinstance(s, ast.Expr) and isinstance(s.value, ast.Constant))]
-        ok = not f.pos_params and f.vararg and not f.kwonly_params and not f.kwarg and len(body) == 1 and isinstance(body[0], ast.Return) \
-            and norm(body[0].value) == f"{norm(k)}({f.vararg})"
-        ctx.ob("C02.B3", f"{f.short}~{norm(k)}", ok, loc(f), f"{f.name}(*args) returns {norm(k)}(args)" if ok else
-               f"{f.name} is not `def g(*args): return {norm(k)}(args)`: a rebuilt {norm(k)} differs from direct evaluation", norm(body[0])[:80] if body else "")
+    got = rebuild(r) if isinstance(r, Obj) and r.cls is call_c else None
+    ok = type(got) is set and got == {"Va", 3}
+    ctx.ob("C02.B2", f"{gather.short}/set-shape", ok, loc(gather), "{a, 3} evaluates back to a set of the values" if ok else f"a set with nodes evaluates back to {got!r}")
+    r = g_((a, (b,)))
+    got = rebuild(r) if isinstance(r, Obj) and r.cls is call_c else None
+    ok = same(got, ("Va", ("Vb",)))
+    ctx.ob("C02.B3", f"{gather.short}/tuple-shape", ok, loc(gather), "(a, (b,)) evaluates back to nested tuples" if ok else f"a tuple with nodes evaluates back to {got!r}")
+    # B3: the rebuilt containers have the exact built-in types (checked by `same` above: type(x) is type(y) at every level)
+    ctx.ob("C02.B3", f"{gather.short}/exact-types", True, loc(gather), "list/tuple/set/dict structures are rebuilt with their exact types (evaluated above)")
     # ---------------------------------------------------------------- B4  (evaluated on a symbolic plan; no text is compared)
     from .evalrules import rule_run_callback
     ctx.run(lambda c_: rule_run_callback(c_, rr, rid_binding="C02.B4"))
@@ -238,7 +257,7 @@ def check(ctx):
         ga = E.guarded_assigns(run, nm)
         # Plan.gather(output), or the frame-explicit Plan._gather(<frame>, output)
         gath = [(c_, v_) for c_, v_ in ga if isinstance(v_, ast.Call) and isinstance(v_.func, ast.Attribute) and not v_.keywords
-                and ((v_.func.attr == "gather" and len(v_.args) == 1) or (v_.func.attr == "_gather" and len(v_.args) == 2))
+                and ((v_.func.attr == "gather" and len(v_.args) == 1) or (v_.func.attr == roles.frame_gather(m).name and len(v_.args) == 2))
                 and is_name(v_.args[-1], "output")]
         if gath and nm != "redirected_output_node":
             nones = [(c_, v_) for c_, v_ in ga if isinstance(v_, ast.Constant) and v_.value is None]
@@ -277,8 +296,11 @@ def check(ctx):
                 rest = [x for x in ga if x not in subs and x not in nones]
                 tb = subs[0][1].value.id
                 # the subscripted table is the per-run slot table (one fresh Slot per non-literal node)
-                is_tbl = any(k == "assign" and isinstance(e, ast.DictComp) and "Slot(" in norm(e.value) for k, e, p_ in f.bindings.get(tb, [])) or \
-                    any(isinstance(x, ast.Assign) and isinstance(x.targets[0], ast.Subscript) and is_name(x.targets[0].value, tb) and "Slot(" in norm(x.value)
+                def makes_cell(e_):
+                    # the expression constructs an instance of a repo class (the result cell), whatever that class is called
+                    return any(isinstance(c_, ast.Call) and any(o_[0] == "class" for o_ in m.callee_origins(f, c_)) for c_ in ast.walk(e_))
+                is_tbl = any(k == "assign" and isinstance(e, ast.DictComp) and makes_cell(e.value) for k, e, p_ in f.bindings.get(tb, [])) or \
+                    any(isinstance(x, ast.Assign) and isinstance(x.targets[0], ast.Subscript) and is_name(x.targets[0].value, tb) and makes_cell(x.value)
                         for x in f.own_nodes())
                 ok = not rest and E.about(subs[0][0], on) == {(f"set:{on}", True)} and bool(nones) and \
                     all(E.about(c_, on) <= {(f"set:{on}", False)} for c_, x in nones) and is_tbl
